@@ -117,9 +117,12 @@ type Op struct {
 	// Expected: the legacy "Expected" parameter of a write in its short form (attribute = value)
 	Expected val.Item `json:"expected,omitempty"`
 	// Paginate: walk the whole result with the SDK's own paginator (SDK v2: NewQueryPaginator / NewScanPaginator;
-	// SDK v1 has none the fake implements): Items holds all pages, Count the number of pages, at most MaxPages
+	// SDK v1: QueryPages / ScanPages, NotImpl when the fake does not implement them): Items holds all pages, Count the number of pages, at most MaxPages
 	Paginate bool `json:"paginate,omitempty"`
 	MaxPages int  `json:"maxpages,omitempty"`
+	// FailAfterPage (with Paginate and Fail): after that many pages were delivered, and before the next one is asked for,
+	// the failure condition Fail is switched on (SDK v1: from inside the page callback)
+	FailAfterPage int `json:"failafterpage,omitempty"`
 	// EmptyTables: BatchWriteItem entries "table: []" (a table named with an empty request list)
 	EmptyTables []string `json:"emptytables,omitempty"`
 	// CondSet: send ConditionExpression even when Cond is empty or blank (a pointer to that text, not nil)
